@@ -427,4 +427,67 @@ def rule_new(ctx):
                         ctx.fail("C20.NEW", c, f"`{x.id}` (holds User objects whose repr prints the password) is logged", construct=f"{p.fn_of(c)}:logs {x.id}")
 
 
-RULES = [rule_server, rule_client, rule_new]
+def _user_objects(p, fn):
+    """names in fn that hold User objects: parameters named user, loop variables over self.users, values assigned from them or from <session>.user"""
+    names = {a.arg for a in fn.args.args if a.arg == "user"}
+    changed = True
+    while changed:
+        changed = False
+        for n in walk_no_nested(fn):
+            if isinstance(n, (ast.For, ast.comprehension)) and isinstance(n.target, ast.Name) and last_attr(n.iter) == "users" and n.target.id not in names:
+                names.add(n.target.id)
+                changed = True
+            if isinstance(n, ast.Assign) and isinstance(n.targets[0], ast.Name) and n.targets[0].id not in names:
+                v = n.value
+                if (isinstance(v, ast.Name) and v.id in names) or (isinstance(v, ast.Attribute) and v.attr == "user"):
+                    names.add(n.targets[0].id)
+                    changed = True
+            if isinstance(n, ast.Assign) and isinstance(n.targets[0], ast.Tuple) and isinstance(n.value, ast.Await) and isinstance(n.value.value, ast.Call) and is_method_call(n.value.value, "get_user"):
+                e = n.targets[0].elts
+                if len(e) == 3 and isinstance(e[1], ast.Name) and e[1].id not in names:
+                    names.add(e[1].id)
+                    changed = True
+    return names
+
+
+def rule_repr(ctx):
+    p = ctx.p
+    ctx.rule("C20.REPR", "no User object is rendered into text (User.__repr__ prints the password; reply texts and exception messages are logged)")
+    n_sites = 0
+    for mod in ("server.py",):
+        for fn in [f for f in ast.walk(p.trees[mod]) if isinstance(f, FuncT)]:
+            if fn.name == "__repr__":
+                continue
+            users = _user_objects(p, fn)
+
+            def is_user(e):
+                if isinstance(e, ast.IfExp):
+                    return is_user(e.body) or is_user(e.orelse)
+                if isinstance(e, ast.BoolOp):
+                    return any(is_user(v) for v in e.values)
+                if isinstance(e, ast.Name):
+                    return e.id in users
+                if isinstance(e, ast.Attribute):
+                    return e.attr == "user"
+                return False
+            for x in walk_no_nested(fn):
+                rendered = []
+                if isinstance(x, ast.FormattedValue):
+                    rendered.append(x.value)
+                elif isinstance(x, ast.Call) and isinstance(x.func, ast.Name) and x.func.id in ("str", "repr", "format", "ascii") and x.args:
+                    rendered.append(x.args[0])
+                elif isinstance(x, ast.Call) and isinstance(x.func, ast.Attribute) and x.func.attr == "format":
+                    rendered += list(x.args) + [k.value for k in x.keywords]
+                elif isinstance(x, ast.BinOp) and isinstance(x.op, ast.Mod) and isinstance(x.left, (ast.Constant, ast.JoinedStr)):
+                    rendered += list(x.right.elts) if isinstance(x.right, ast.Tuple) else [x.right]
+                for e in rendered:
+                    n_sites += 1
+                    bad = is_user(e)
+                    ctx.ob("C20.REPR", x, f"{p.qualname(fn)}: rendered value `{src(e)[:40]}` is not a User object", not bad,
+                           f"{p.qualname(fn)}: a User object (`{src(e)[:50]}`) is rendered into text; User.__repr__ prints the password and this text reaches a reply / log / exception message",
+                           construct=f"{p.qualname(fn)}:renders user:{src(e)[:50]}")
+    if n_sites < 10:
+        ctx.floor_errors.append(f"rule=C20.REPR: {n_sites} rendering sites (floor 10)")
+
+
+RULES = [rule_server, rule_client, rule_new, rule_repr]
